@@ -1584,15 +1584,15 @@ theorem wf_of_wfB (script : List Op) (h : wfB script = true) : WF script := by
   · intro t op ht
     have := hop t op ht
     simp only [opRefsOK, Bool.and_eq_true] at this
-    exact classRefsOK_spec groupC script t op this.1.1.1
+    exact classRefsOK_spec groupC script t op this.1.1.1.1
   · intro t op ht
     have := hop t op ht
     simp only [opRefsOK, Bool.and_eq_true] at this
-    exact classRefsOK_spec agroupC script t op this.1.1.2
+    exact classRefsOK_spec agroupC script t op this.1.1.1.2
   · intro t op ht
     have := hop t op ht
     simp only [opRefsOK, Bool.and_eq_true] at this
-    exact classRefsOK_spec avgroupC script t op this.1.2
+    exact classRefsOK_spec avgroupC script t op this.1.1.2
   · intro t op ht r hs hsel
     have := hop t op ht
     simp only [opRefsOK, Bool.and_eq_true] at this
@@ -1600,7 +1600,7 @@ theorem wf_of_wfB (script : List Op) (h : wfB script = true) : WF script := by
     cases op <;> simp [selUse] at hsel
     case use r' hs' =>
       obtain ⟨rfl, _⟩ := hsel
-      simpa using h4
+      simpa [routerRefsOK] using h4
     case ause hs' =>
       obtain ⟨rfl, _⟩ := hsel
       omega
@@ -1608,18 +1608,18 @@ theorem wf_of_wfB (script : List Op) (h : wfB script = true) : WF script := by
     have := h2 i (lt_of_getElem? hi) j (lt_of_getElem? hj)
     rw [hi, hj] at this
     simp only [Option.bind_some, show routeSegOf opi = some sg from si, show routeSegOf opj = some sg from sj,
-      Bool.or_eq_true, beq_iff_eq] at this
+      Bool.or_eq_true, beq_iff_eq, Bool.and_eq_true] at this
     rcases this with h' | h'
     · exact h'
     · simp at h'
   · intro t op ht
     have := hop t op ht
     simp only [opRefsOK, Bool.and_eq_true] at this
-    have h4 := this.2
+    have h4 := this.1.2
     cases op with
-    | route o seg hs => cases o <;> simp_all
-    | aroute o seg b hh a => cases o <;> simp_all
-    | vgroup v seg hs => simpa using h4
+    | route o seg hs => cases o <;> simp_all [ownRefsOK]
+    | aroute o seg b hh a => cases o <;> simp_all [ownRefsOK]
+    | vgroup v seg hs => simpa [ownRefsOK] using h4
     | _ => trivial
 
 theorem noMount_of_noMountB (script : List Op) (h : noMountB script = true) : NoMount script := by
